@@ -676,7 +676,7 @@ theorem pollWriteCancel_frameP (s : St) : FrameP s (pollWriteCancel s).1 := by
     exact f1.trans f3
 
 theorem pumpWrite_frameW (s : St) (now : Nat) : FrameW s (pumpWrite s now).1 := by
-  refine pumpWrite_cases (motive := fun p => FrameW s p.1) s now ?_ ?_ ?_ ?_ ?_
+  refine pumpWrite_cases (motive := fun p => FrameW s p.1) s now ?_ ?_ ?_ ?_ ?_ ?_
   · intro s1 r1 h1 _
     have f1 := (pollWriteRequest_frameP s now).toFrameW; rw [h1] at f1; exact f1
   · intro s1 r1 s2 r2 h1 _ h2 _
@@ -684,6 +684,11 @@ theorem pumpWrite_frameW (s : St) (now : Nat) : FrameW s (pumpWrite s now).1 := 
     have f2 := (pollWriteCancel_frameP s1).toFrameW; rw [h2] at f2
     exact f1.trans f2
   · intro s1 r1 s2 r2 s3 h1 _ h2 _ h3
+    have f1 := (pollWriteRequest_frameP s now).toFrameW; rw [h1] at f1
+    have f2 := (pollWriteCancel_frameP s1).toFrameW; rw [h2] at f2
+    have f3 := (pollExpired_frameA s2 now).toW; rw [h3] at f3
+    exact (f1.trans f2).trans f3
+  · intro s1 r1 s2 r2 s3 h1 _ h2 _ h3 _
     have f1 := (pollWriteRequest_frameP s now).toFrameW; rw [h1] at f1
     have f2 := (pollWriteCancel_frameP s1).toFrameW; rw [h2] at f2
     have f3 := (pollExpired_frameA s2 now).toW; rw [h3] at f3
